@@ -66,7 +66,15 @@ func reqID(m p9p.Message) int {
 func resultFor(m p9p.Message) (p9p.Message, error) {
 	id := reqID(m)
 	if id%2 == 1 {
-		return nil, fmt.Errorf("e%d", id)
+		// handlers report errors in all three shapes the server accepts
+		switch id % 6 {
+		case 1:
+			return nil, fmt.Errorf("e%d", id)
+		case 3:
+			return nil, p9p.MessageRerror{Ename: fmt.Sprintf("e%d", id)}
+		default:
+			return nil, &p9p.MessageRerror{Ename: fmt.Sprintf("e%d", id)}
+		}
 	}
 	switch m.(type) {
 	case p9p.MessageTread:
